@@ -3,6 +3,7 @@ package main
 // Loading /repo into go/ssa and indexing functions, contracts, globals.
 
 import (
+	"time"
 	"fmt"
 	"go/token"
 	"go/types"
@@ -55,6 +56,7 @@ type Prog struct {
 	callees    map[string][]string // static call graph over the functions of the packages (by base name)
 	bindings   map[string]bindInfo // roles of the program variables named in contracts (/verif/bindings.json)
 	bindOut    map[string]bindInfo // being generated (govc bindings)
+	replayStart time.Time          // when the first replay of this run started (replaying is time-boxed)
 }
 
 func funcDisplayName(f *ssa.Function) string {
